@@ -121,6 +121,19 @@ NEEDED = {
  'C15-15': 'pause counter of the model saturates instead of overflowing (the harness panicked - machinery exit - where it should have reported the fourth pause)',
  'C16-13': "liquidations with surplus observation accounts for the liquidator; roots F5 / F6 (liquidator holds only the collateral bank, both key orders)",
  'C17-13': 'withdraw amounts at the utilisation boundary and the whole vault; wound-down roots (borrow limit 0 / 1 with debt outstanding and a year of uncollected fees)',
+ # round 6 (session 5)
+ 'C03-16': 'vault swaps in the C03 sweep; an instruction re-issued with a look-alike vault is judged like the instruction itself (C01 caught it as it stood)',
+ 'C05-16': "drained debt-bank vault probe: the debt bank's liquidity vault holds 0 / 1 / 1000 native units",
+ 'C05-17': "e-mode maintenance weight 0.98 on the seized collateral against a liability weight of 1.0, group leverage caps raised to 90 / 100",
+ 'C08-17': '(caught by the sibling check C09) legacy (pre-migration) Pyth bank offered a receiver account at another address whose feed id spells the configured key',
+ 'C10-16': 'permissionless reward settlement in the side enumeration (C19 and C08 caught it as they stood)',
+ 'C11-16': 'account transfers (both flavours) inside brackets in the band enumeration; health judged on the account the positions went to',
+ 'C12-16': "deleverage shape enumeration over two accounts: all lists of length <= 4 of the risk admin's starts, ends, repays and withdrawals (C10 caught it as it stood)",
+ 'C13-16': "the risk admin's wind-down completion and the token-less flag in the alphabet",
+ 'C13-17': 'borrow limit 0 (limits-only instruction) in the alphabet: a bank that cannot be borrowed from must still be configured coherently',
+ 'C14-17': 'user instructions inside a flash-loan bracket of the acting account x bank x state',
+ 'C15-17': 'daily resets judged by the clock time at which they happen, not by the stored window start',
+ 'C17-17': 'reduce-only root on a utilised bank with a year of uncollected fees',
 }
 BUILT_AFTER = {'C09', 'C10', 'C11', 'C19'}  # checks written after their seeds existed
 
